@@ -131,6 +131,7 @@ func c11GetModel(r *core.R) *c11Model {
 		}
 	}
 	m.it = c11NewInterp(pk)
+	m.it.recordIndex = true
 	m.it.inline = policy(false)
 	m.paths = c11AllPaths(m.it, fi, nil)
 	// exported-name methods of unexported types that were called: the one called on an element of the
@@ -142,7 +143,7 @@ func c11GetModel(r *core.R) *c11Model {
 				continue
 			}
 			rv := ev.call.xs[0]
-			if _, isKey := c11IsIterKey(rv.xs1()); rv.k == "index" && isKey && rv.xs[0].k == "call" && strings.HasPrefix(rv.xs[0].name, "make@") {
+			if _, isKey := c11IsIterKey(rv.xs1()); rv.k == "index" && isKey { // an element of the map being ranged over, wherever that map comes from
 				keep[ev.call.fn] = true
 			} else {
 				others = true
@@ -151,6 +152,7 @@ func c11GetModel(r *core.R) *c11Model {
 	}
 	if others {
 		m.it = c11NewInterp(pk)
+		m.it.recordIndex = true
 		m.it.inline = policy(true)
 		m.paths = c11AllPaths(m.it, fi, nil)
 	}
